@@ -370,6 +370,27 @@ Section Refine.
     rewrite hx_get_blob, L. unfold blob_resp. simp. eauto.
   Qed.
 
+  (* the reader blob FetchReference returns is opened with the blob's true size in EVERY
+     profile -- also when the GET carries no Content-Length and the descriptor comes from
+     the HEAD -- so C13_seek (size = len content) applies to it *)
+  Theorem fetchref_seeker g n rs rf c :
+    resolve_ref main rs = Some rf -> valid_digest rf = true -> lookup rf (g_blobs g) = Some c ->
+    exists n' t res, blob_fetchref parse_mt main S ex0 (g, n) rs = ((g, n'), t, res) /\
+                     seeker_of res 0 = Some (rsc_open c (len c)).
+  Proof.
+    intros ER V L. destruct (blob_fetchref_hit g n rs rf c ER V L) as (n' & t & E).
+    eexists _, _, _. split; [exact E|reflexivity].
+  Qed.
+
+  Theorem fetch_seeker g n d c :
+    lookup (d_dg d) (g_blobs g) = Some c -> len c = d_sz d -> valid_digest (d_dg d) = true ->
+    exists t res, blob_fetch S ex0 main (g, n) d = ((g, n + 1), t, res) /\
+                  seeker_of res (d_sz d) = Some (rsc_open c (len c)).
+  Proof.
+    intros L Hs V. destruct (blob_fetch_hit g n d c L Hs V) as (t & E).
+    eexists _, _. split; [exact E|]. cbn. now rewrite Hs.
+  Qed.
+
   (* ---- Repository.delete ---- *)
   Lemma delete_blob_hit g n d c :
     lookup (d_dg d) (g_blobs g) = Some c -> valid_digest (d_dg d) = true ->
